@@ -208,7 +208,7 @@ func c10Specs(thorough bool) []*gen.ProgSpec {
 	var specs []*gen.ProgSpec
 	maxV, maxVA, fullDur := 5, 3, 3
 	if thorough {
-		maxV, maxVA, fullDur = 6, 4, 4
+		maxV, maxVA, fullDur = 7, 4, 4
 	}
 	canonStsc := func(ch []int) []tableref.StscEntry {
 		var stsc []tableref.StscEntry
@@ -467,7 +467,7 @@ func runC10(c *vf.Ctx) {
 		c.SetBudget(4 * 60 * 1e9)
 	}
 	c.Rule = "generated progressive files: single video track with stss (all chunkings x every sync subset containing sample 1 x duration tuples over {1,2,3} x ctts/sdtp/co64/edts/mdat-first/64-bit-mdat-header variants), single audio / video track without stss (also with a track header duration of half the media duration and of zero), video+audio (all chunkings of both x every merge order of the chunks in mdat x sync subsets; audio timescale 1000 and 600) ; single video tracks with empty samples (every size tuple over {0,1,2} with a zero, three chunkings); single video (with stss) / audio tracks of 3-4 samples with durations over {2^31, 2^32-1, 1} ticks at timescales 1000 / 90000 / 10^7 (decode times beyond 2^32 ticks inside one stts run); each file is cropped in-process by the tool's own cropMP4 (overlay-injected driver) at EVERY millisecond 1..total+2 (files longer than 5 s: at the boundary set of milliseconds around every sample start of every track, and 1, total+1, total+2). A case = (file, ms). Only successful crops are judged; tool errors/panics are tallied."
-	c.Bound = "single track N <= 5 (quick) / 6 (thorough) samples; video+audio N <= 3 / 4 each, audio timescale 1000 and 600 (reference track always 1000)"
+	c.Bound = "single track N <= 5 (quick) / 7 (thorough) samples; video+audio N <= 3 / 4 each, audio timescale 1000 and 600 (reference track always 1000)"
 	specs := c10Specs(thorough)
 	c.Set("files", len(specs))
 	nw := 16
